@@ -88,12 +88,28 @@ pub struct Tally {
     /// per-shard counts add up)
     pub distinct_extra: u64,
     pub counters: BTreeMap<String, u64>,
+    /// per shard: how many failures of a (clause, signature) have been minimised and reported
+    pub reported_per_signature: BTreeMap<(String, String), u32>,
     pub samples: Vec<Value>,
     pub violations: Vec<Violation>,
     pub harness_errors: Vec<String>,
 }
 
 impl Tally {
+    /// A change that breaks a property everywhere fails in every scenario: minimising (hundreds
+    /// of re-executions) and reporting the first few failures of a (clause, signature) per shard is
+    /// enough, the rest are only counted.
+    pub fn first_few(&mut self, clause: &str, signature: &str, limit: u32) -> bool {
+        let n = self.reported_per_signature.entry((clause.to_string(), signature.to_string())).or_insert(0);
+        *n += 1;
+        if *n > limit {
+            *self.counters.entry("failures_counted_but_not_minimised".into()).or_insert(0) += 1;
+            false
+        } else {
+            true
+        }
+    }
+
     pub fn bump(&mut self, key: &str, by: u64) {
         *self.counters.entry(key.to_string()).or_insert(0) += by;
     }
@@ -151,6 +167,7 @@ impl Tally {
             distinct: Default::default(),
             distinct_extra: w.distinct_count,
             counters: w.counters,
+            reported_per_signature: Default::default(),
             samples: w.samples,
             violations: w.violations,
             harness_errors: w.harness_errors,
